@@ -2,3 +2,7 @@ import DdsModel.Mach
 import DdsModel.Layout
 import DdsModel.Proofs.Layout
 import DdsModel.Theorems.C02
+import DdsModel.Stream
+import DdsModel.Proofs.Stream
+import DdsModel.Proofs.StreamPaths
+import DdsModel.Theorems.C06
